@@ -14,7 +14,7 @@ GATES = {
               'layout:indented-comment': 2000, 'layout:blank-separated': 500, 'layout:mixed-class-adjacent': 300, 'layout:file-start': 500,
               'layout:file-end': 300, 'layout:after-last-meta-no-postings': 40, 'layout:before-dedent': 300, 'layout:nested-posting-meta': 100,
               'history_steps': 6000, 'handover_claims': 1500, 'manual_claims_judged': 2500, 'restore_checks': 800, 'idempotence_checks': 2500, 'parse_vs_later_checks': 2500,
-              'parse_vs_later_on_copy': 1000, 'assigned_list_claims': 40, 'restore_api_built': 2000, 'empty_selection_calls': 2000, 'comments_given_to_owners': 1500, 'multi_comment_handovers': 60, 'restore_interleaving:explicit-list': 300, 'restore_interleaving:one-by-one': 50, 'histories_continued_on_copy': 150},
+              'parse_vs_later_on_copy': 1000, 'assigned_list_claims': 40, 'restore_api_built': 2000, 'empty_selection_calls': 2000, 'comments_given_to_owners': 1500, 'multi_comment_handovers': 60, 'restore_interleaving:explicit-list': 300, 'restore_interleaving:one-by-one': 50, 'new_neighbour_claims': 40, 'histories_continued_on_copy': 150},
     'thorough': {'evaluations': 500000, 'layout:after-last-meta-no-postings': 800},
 }
 RULE = ('case = one document from the comment-layout generator (comment runs, matching or mismatching indentation, adjacent above / below / '
@@ -315,6 +315,10 @@ def run_case(col, r, idx):
             pp = ops.multi_comment_ops(root, r)       # two or three separate comment tokens in one gap, handed from list to list
             if pp:
                 col.count('multi_comment_handovers')
+        if not pp and idx % 7 == 1:
+            pp = ops.new_neighbour_claims_ops(root, r)     # a released comment claimed by a model that was not there when it was first claimed
+            if pp:
+                col.count('new_neighbour_claims')
         pp.reverse()
         swap_at = r.randint(1, 8) if not pp and idx % 4 == 1 else -1
         text_edited = False
